@@ -493,6 +493,14 @@ func mixCase(hseed uint64) {
 			}
 		}
 	}
+	if tc != nil {
+		tc.onSharedErr = func(job int) {
+			w.mu.Lock()
+			defer w.mu.Unlock()
+			w.jobAnswers[job] = append(w.jobAnswers[job], "Z") // the model's answer AShareFail
+			run.Count("mixjob/shared-fetch-error")
+		}
+	}
 	client := &auth.Client{Client: &http.Client{Transport: w}, Cache: cache, Credential: w.credentialFunc(), ForceAttemptOAuth2: oauth2}
 	n := 4 + r.Intn(12)
 	type job struct {
@@ -615,10 +623,6 @@ func mixCase(hseed uint64) {
 		}
 		if rd == nil {
 			rd = &jobReads{scheme: "-"}
-		}
-		if rd.setCalls > 0 && !rd.fetched && len(rd.sets) == 0 {
-			run.Count("mixjob/unjudged-shared-failure") // it received another call's fetch ERROR: not in the model
-			continue
 		}
 		o := 0
 		if oauth2 {
